@@ -113,6 +113,27 @@ func runC19(e *Engine, tier Tier) *PropRun {
 			what  string
 		}{res.C[len(res.C)-2], ins.Block(), name})
 	}
+	// provenance of file contents: bytes read from a file, and the strings made of them, belong to that file
+	opts.OnBytesToString = func(fr *Frame, x *ssa.Convert, bytes Val, str Val) {
+		b := fr.uf("g_bsrc", []string{bytes.C[0]}, []string{"Int"}, "Str")
+		g := fr.uf("g_src", []string{str.C[0]}, []string{"Str"}, "Str")
+		fr.q.assume(fr.cur.reach, sEq(g, b))
+	}
+	opts.OnStringToBytes = func(fr *Frame, x *ssa.Convert, str Val, bytes Val) {
+		b := fr.uf("g_bsrc", []string{bytes.C[0]}, []string{"Int"}, "Str")
+		g := fr.uf("g_src", []string{str.C[0]}, []string{"Str"}, "Str")
+		fr.q.assume(fr.cur.reach, sEq(b, g))
+	}
+	prevAfter := opts.AfterCall
+	opts.AfterCall = func(fr *Frame, ins ssa.Instruction, c *ssa.CallCommon, callee *ssa.Function, args []Val, res Val) {
+		if prevAfter != nil {
+			prevAfter(fr, ins, c, callee, args, res)
+		}
+		if callee != nil && callee.String() == "os.ReadFile" && len(args) == 1 && len(res.C) >= 3 {
+			b := fr.uf("g_bsrc", []string{res.C[0]}, []string{"Int"}, "Str")
+			fr.q.assume(fr.cur.reach, "(=> (not (= "+res.C[0]+" 0)) "+sEq(b, args[0].C[0])+")")
+		}
+	}
 	opts.OnCall = func(fr *Frame, ins ssa.CallInstruction, callee *ssa.Function, args []Val) {
 		if fr.parent != nil || callee == nil {
 			return
@@ -136,6 +157,12 @@ func runC19(e *Engine, tier Tier) *PropRun {
 				if t, err := env.evalBool(c.Expr); err == nil {
 					q.addObligation(fr, "struct", "check-only never writes: "+callee.Name(), ins.Pos(), fr.cur.reach, t)
 				}
+			}
+			if callee.Name() == "writeFileAtomic" && len(args) >= 2 && len(args[1].C) == 3 {
+				// the bytes written (when there are any) were made from the file they replace
+				bs := fr.uf("g_bsrc", []string{args[1].C[0]}, []string{"Int"}, "Str")
+				cond := "(=> (> " + args[1].C[1] + " 0) " + sEq(bs, args[0].C[0]) + ")"
+				q.addObligation(fr, "struct", "the text written to a file was made from that file: "+callee.Name(), ins.Pos(), fr.cur.reach, cond)
 			}
 			if c, err := parseClause("fileResult.Error == nil"); err == nil {
 				if t, err := env.evalBool(c.Expr); err == nil {
@@ -171,7 +198,7 @@ func runC19(e *Engine, tier Tier) *PropRun {
 			return false
 		}
 		switch fn.Name() {
-		case "Format", "writeFileAtomic", "lintRun", "formatRun", "validateRun":
+		case "Format", "formatFile", "writeFileAtomic", "lintRun", "formatRun", "validateRun":
 			want[fnKey(fn)] = true
 			return true
 		}
@@ -212,8 +239,8 @@ func runC19(e *Engine, tier Tier) *PropRun {
 			return o.Kind == "crash" || o.Kind == "struct" || ((o.Kind == "post" || strings.HasPrefix(o.Kind, "inv")) && strings.Contains(o.Fn, "Format"))
 		},
 		Level:       "other",
-		Explanation: "Crash-state and write discipline of the two in-place rewriters (format -i in Formatter.Format, lint --auto-fix in lintRun), with the file-system primitives as assumed contracts (os.WriteFile/Create/OpenFile truncate their target; os.Rename replaces atomically). crash obligations: no truncating write is applied to the path of a file being processed (path provenance over SSA); inside writeFileAtomic the destination path is touched by os.Rename only, and the rename is reached only on paths where every earlier fallible step (CreateTemp, Write, Sync, Close, Chmod) returned nil (path conditions from the VC generator). struct obligations at every file-system write in Formatter.Format: Opts.Check is false there (check-only never writes) and the file's own processing succeeded (fileResult.Error == nil).",
+		Explanation: "Crash-state and write discipline of the two in-place rewriters (format -i in Formatter.Format, lint --auto-fix in lintRun), with the file-system primitives as assumed contracts (os.WriteFile/Create/OpenFile truncate their target; os.Rename replaces atomically). crash obligations: no truncating write is applied to the path of a file being processed (path provenance over SSA); inside writeFileAtomic the destination path is touched by os.Rename only, and the rename is reached only on paths where every earlier fallible step (CreateTemp, Write, Sync, Close, Chmod) returned nil (path conditions from the VC generator). struct obligations at every file-system write in Formatter.Format: Opts.Check is false there (check-only never writes) and the file's own processing succeeded (fileResult.Error == nil). Provenance: a ghost srcof(text) names the file a text was read from or made of (os.ReadFile, string/[]byte conversions and the assumed contract of formatSQL carry it); formatFile is proved to report a text made from the file it was asked about, and at the in-place write in Format the bytes written (when there are any) are proved to have been made from the very file they replace.",
 		NotCovered:  []string{"process exit status and stdout of the built binary, cobra flag plumbing, glob expansion", "validate / parse verdicts and machine-readable reports (JSON, SARIF)", "three-way consistency print / -i / --check beyond sharing the same Changed flag", "lint --auto-fix rewriting a file although one rule's Fix returned an error", "a crash between rename and directory sync (durability)", "the --output file of format and lint (not in-place; written with os.WriteFile)"},
-		Assumptions: []string{"os.Rename within one directory is atomic; os.WriteFile/os.Create/os.OpenFile may leave a truncated file", "os.CreateTemp in the destination directory yields a path on the same file system"},
+		Assumptions: []string{"(*Formatter).formatSQL: the formatted text is made from the text handed in (trusted contract; its body goes through tokenizer, parser and AST formatter)", "os.Rename within one directory is atomic; os.WriteFile/os.Create/os.OpenFile may leave a truncated file", "os.CreateTemp in the destination directory yields a path on the same file system"},
 	}
 }
